@@ -1410,4 +1410,289 @@ theorem parseURI_err_port_big (b : Buf) (hfit : b.size ≤ 65535) {t k hs he p :
     exact uc_err_port_big (Or.inr hst) hpn hp hall hbig hend
 
 
+/-! ### soundness of the grammar: every accepted sip: / sips: text is a text of the grammar -/
+
+theorem UcAll.snoc {b : Buf} {p i : Nat} {f : UInt8 → Bool} {c : UInt8} (h : UcAll b p i f) (hc : b[i]? = some c)
+    (hf : f c = true) : UcAll b p (i + 1) f := by
+  intro j h1 h2 c' hc'
+  by_cases hji : j = i
+  · subst hji
+    rw [hc] at hc'
+    cases hc'
+    exact hf
+  · exact h j h1 (by omega) c' hc'
+
+theorem UcAll.nil (b : Buf) {p q : Nat} (f : UInt8 → Bool) (h : q ≤ p) : UcAll b p q f :=
+  fun j h1 h2 => absurd h2 (by omega)
+
+theorem UcAll.one {b : Buf} {i : Nat} {f : UInt8 → Bool} {c : UInt8} (hc : b[i]? = some c) (hf : f c = true) :
+    UcAll b i (i + 1) f := (UcAll.nil b f (Nat.le_refl i)).snoc hc hf
+
+theorem UcAll.mono {b : Buf} {p q : Nat} {f g : UInt8 → Bool} (h : UcAll b p q f) (hfg : ∀ c, f c = true → g c = true) :
+    UcAll b p q g := fun j h1 h2 c hc => hfg c (h j h1 h2 c hc)
+
+theorem uc_digit_tok (c : UInt8) (h : isDigit c = true) : ucTok c = true := by
+  have h1 : c ≠ 64 := by intro e; rw [e] at h; exact absurd h (by decide)
+  have h2 : c ≠ 58 := by intro e; rw [e] at h; exact absurd h (by decide)
+  have h3 : c ≠ 59 := by intro e; rw [e] at h; exact absurd h (by decide)
+  have h4 : c ≠ 63 := by intro e; rw [e] at h; exact absurd h (by decide)
+  have h5 : c ≠ 91 := by intro e; rw [e] at h; exact absurd h (by decide)
+  have h6 : c ≠ 93 := by intro e; rw [e] at h; exact absurd h (by decide)
+  simp [ucTok, h1, h2, h3, h4, h5, h6]
+
+/-- the position behind the first `;` / `?` that follows the host (and port) -/
+def ucD1 (σ : UState) : Nat := if σ.u.params.offs = 0 then σ.s else σ.u.params.offs
+
+/-- the bytes of a field are of the class (an absent field, `⟨0, 0⟩`, has none) -/
+def UcFld (b : Buf) (f : PField) (cls : UInt8 → Bool) : Prop := UcAll b f.offs (f.offs + f.len) cls
+
+/-- a user-info of the grammar ends with the '@' right in front of `hs` -/
+def UcUinfo (b : Buf) (k : Nat) (us pw : PField) (hs : Nat) : Prop :=
+  ∃ a, hs = a + 1 ∧ b[a]? = some 64 ∧ (UcUserPlain b k a us pw ∨ UcUserBack b k a us pw)
+
+/-- scheme-to-host part of `UcRest`; `he` = end of the host -/
+def UcHostOK (b : Buf) (k : Nat) (us pw ho : PField) (he : Nat) : Prop :=
+  (us = ⟨0, 0⟩ ∧ pw = ⟨0, 0⟩ ∧ (UcFirstTok b k he ∨ UcBrHost b k he) ∧ ho = ⟨k, he - k⟩) ∨
+  (∃ a, b[a]? = some 64 ∧ (UcUserPlain b k a us pw ∨ UcUserBack b k a us pw) ∧
+    (UcNameHost b (a + 1) he ∨ UcBrHost b (a + 1) he) ∧ ho = ⟨a + 1, he - (a + 1)⟩)
+
+theorem UcRest_iff (b : Buf) (k : Nat) (u : PsipURI) :
+    UcRest b k u ↔ ∃ he, UcHostOK b k u.user u.pass u.host he ∧ UcPo b he u.port u.portNo u.params u.headers := by
+  constructor
+  · rintro (⟨h1, h2, he, h3, h4, h5⟩ | ⟨a, he, h1, h2, h3, h4, h5⟩)
+    · exact ⟨he, Or.inl ⟨h1, h2, h3, h4⟩, h5⟩
+    · exact ⟨he, Or.inr ⟨a, h1, h2, h3, h4⟩, h5⟩
+  · rintro ⟨he, (⟨h1, h2, h3, h4⟩ | ⟨a, h1, h2, h3, h4⟩), h5⟩
+    · exact Or.inl ⟨h1, h2, he, h3, h4, h5⟩
+    · exact Or.inr ⟨a, he, h1, h2, h3, h4, h5⟩
+
+/-- while no '@' has been seen in parameters / headers: what was read so far can still become a user part -/
+def UcBack (b : Buf) (k i : Nat) (σ : UState) : Prop :=
+  σ.foundUser = false →
+    UcBackHead b k (ucD1 σ - 1) ∧ (b[ucD1 σ - 1]? = some 59 ∨ b[ucD1 σ - 1]? = some 63) ∧ 1 ≤ ucD1 σ ∧ ucD1 σ ≤ i ∧
+    (σ.passOffs = 0 → UcAll b (ucD1 σ) i ucW1) ∧
+    (σ.passOffs ≠ 0 → ucD1 σ ≤ σ.passOffs ∧ UcAll b (ucD1 σ) σ.passOffs ucW1 ∧ UcAll b (σ.passOffs + 1) i ucW2)
+
+/-- byte classes of what has been read, per state (rides on `UInv`) -/
+def UcSInv (b : Buf) (k i : Nat) (σ : UState) : Prop :=
+  match σ.st with
+  | .user => UcAll b k (k + 1) ucFirst ∧ UcAll b (k + 1) i ucTok
+  | .pass0 => UcFirstTok b k (k + σ.u.user.len) ∧ UcAll b σ.s i isDigit
+  | .pass1 => UcFirstTok b k (k + σ.u.user.len) ∧ UcAll b σ.s i ucTok
+  | .host0 => UcUinfo b k σ.u.user σ.u.pass σ.s
+  | .host1 => UcUinfo b k σ.u.user σ.u.pass σ.s ∧ UcAll b σ.s (σ.s + 1) ucHost0 ∧ UcAll b (σ.s + 1) i ucHost
+  | .host61 => (σ.foundUser = true → UcUinfo b k σ.u.user σ.u.pass σ.s) ∧ σ.s < i ∧ b[σ.s]? = some 91 ∧
+      UcAll b (σ.s + 1) i ucBrIn
+  | .host6E => (σ.foundUser = true → UcUinfo b k σ.u.user σ.u.pass σ.s) ∧ UcBrHost b σ.s i
+  | .port => UcHostOK b k σ.u.user σ.u.pass σ.u.host (σ.u.host.offs + σ.u.host.len) ∧ UcAll b σ.s i isDigit ∧
+      (σ.foundUser = false → UcBrHost b k (σ.u.host.offs + σ.u.host.len))
+  | .param0 | .param1 => UcHostOK b k σ.u.user σ.u.pass σ.u.host (σ.u.host.offs + σ.u.host.len) ∧
+      UcFld b σ.u.port isDigit ∧ UcAll b σ.s i ucPar ∧ UcBack b k i σ
+  | .headers => UcHostOK b k σ.u.user σ.u.pass σ.u.host (σ.u.host.offs + σ.u.host.len) ∧
+      UcFld b σ.u.port isDigit ∧ UcFld b σ.u.params ucPar ∧ (σ.errHeaders = false → UcAll b σ.s i ucHdr) ∧
+      UcBack b k i σ
+  | _ => True
+
+def UcSStepOK (b : Buf) (k i : Nat) : UStep → Prop
+  | .next σ' => UcSInv b k (i + 1) σ'
+  | .fail _ _ _ => True
+
+theorem ucs_init {b : Buf} {t k i : Nat} {σ : UState} {c : UInt8} (h : UInv b t k i σ)
+    (hst : σ.st = .initSIP ∨ σ.st = .initSIPS ∨ σ.st = .initTEL)
+    (hc : b[i]? = some c) : UcSStepOK b k i (uriStep i c σ) := by
+  obtain ⟨hsch, hty, hp, hk, hi, hfit, hI⟩ := h
+  unfold UStInv at hI
+  have hI' : i = k ∧ σ.foundUser = false := by
+    rcases hst with hst | hst | hst <;> (rw [hst] at hI; exact ⟨hI.1, hI.2.1⟩)
+  obtain ⟨hik, hfu⟩ := hI'
+  subst hik
+  unfold uriStep
+  rcases hst with hst | hst | hst <;>
+  · rw [hst]
+    simp only
+    by_cases h91 : (c == 91) = true
+    · simp only [h91, ↓reduceIte]
+      cases beq_u8 h91
+      unfold UcSStepOK UcSInv
+      simp only
+      exact ⟨(fun hf => by rw [hfu] at hf; cases hf), by omega, hc, UcAll.nil b _ (Nat.le_refl _)⟩
+    simp only [h91, Bool.false_eq_true, ↓reduceIte]
+    by_cases hbr : (c == 58 || c == 93) = true
+    · simp only [hbr, ↓reduceIte]
+      trivial
+    simp only [hbr, Bool.false_eq_true, ↓reduceIte]
+    unfold UcSStepOK UcSInv
+    simp only
+    refine ⟨UcAll.one hc ?_, UcAll.nil b _ (Nat.le_refl _)⟩
+    simp only [Bool.or_eq_true, not_or, Bool.not_eq_true] at hbr
+    simp [ucFirst, h91, hbr.1, hbr.2]
+
+
+theorem uc_back_fresh {b : Buf} {k d : Nat} {σ' : UState} (hh : UcBackHead b k d)
+    (hd : b[d]? = some 59 ∨ b[d]? = some 63) (hD : ucD1 σ' = d + 1) (hpo : σ'.passOffs = 0) :
+    UcBack b k (d + 1) σ' := by
+  intro _
+  rw [hD]
+  refine ⟨hh, hd, by omega, by omega, fun _ => UcAll.nil b _ (Nat.le_refl _), fun h => absurd hpo h⟩
+
+theorem ucs_user {b : Buf} {t k i : Nat} {σ : UState} {c : UInt8} (h : UInv b t k i σ) (hs : UcSInv b k i σ)
+    (hst : σ.st = .user) (hc : b[i]? = some c) : UcSStepOK b k i (uriStep i c σ) := by
+  obtain ⟨hsch, hty, hp, hk, hi, hfit, hI⟩ := h
+  have hlt := get?_lt hc
+  unfold UStInv at hI
+  rw [hst] at hI
+  simp only at hI
+  obtain ⟨hs0, hki, hfu, hpo, ⟨hu0, hp0⟩, hh0, hpt0, hpa0, hhd0⟩ := hI
+  unfold UcSInv at hs
+  rw [hst] at hs
+  simp only at hs
+  obtain ⟨A1, A2⟩ := hs
+  have hft : UcFirstTok b k i := ⟨hki, A1, A2⟩
+  have hset : PField.set σ.s i = ⟨k, i - k⟩ := by rw [hs0]; exact uset_eq (by omega) (by omega)
+  have e : k + (i - k) = i := by omega
+  unfold uriStep
+  rw [hst]
+  simp only
+  by_cases h64 : (c == 64) = true
+  · simp only [h64, ↓reduceIte]
+    cases beq_u8 h64
+    unfold UcSStepOK UcSInv
+    simp only [UState.setUser, hset]
+    exact ⟨i, rfl, hc, Or.inl ⟨i, hft, rfl, Or.inl ⟨rfl, hp0⟩⟩⟩
+  simp only [h64, Bool.false_eq_true, ↓reduceIte]
+  by_cases h58 : (c == 58) = true
+  · simp only [h58, ↓reduceIte]
+    unfold UcSStepOK UcSInv
+    simp only [UState.setUser, hset, e]
+    exact ⟨hft, UcAll.nil b _ (Nat.le_refl _)⟩
+  simp only [h58, Bool.false_eq_true, ↓reduceIte]
+  by_cases h59 : (c == 59) = true
+  · simp only [h59, ↓reduceIte]
+    cases beq_u8 h59
+    unfold UcSStepOK UcSInv
+    simp only [UState.setHost, hset, e, hpt0]
+    refine ⟨Or.inl ⟨hu0, hp0, Or.inl hft, rfl⟩, UcAll.nil b _ (by simp), UcAll.nil b _ (Nat.le_refl _), ?_⟩
+    exact uc_back_fresh (Or.inl hft) (Or.inl hc) (by simp only [ucD1, hpa0, ↓reduceIte]) hpo
+  simp only [h59, Bool.false_eq_true, ↓reduceIte]
+  by_cases h63 : (c == 63) = true
+  · simp only [h63, ↓reduceIte]
+    cases beq_u8 h63
+    unfold UcSStepOK UcSInv
+    simp only [UState.setHost, hset, e, hpt0, hpa0]
+    refine ⟨Or.inl ⟨hu0, hp0, Or.inl hft, rfl⟩, UcAll.nil b _ (by simp), UcAll.nil b _ (by simp),
+      fun _ => UcAll.nil b _ (Nat.le_refl _), ?_⟩
+    exact uc_back_fresh (Or.inl hft) (Or.inr hc) (by simp only [ucD1, hpa0, ↓reduceIte]) hpo
+  simp only [h63, Bool.false_eq_true, ↓reduceIte]
+  by_cases hbr : (c == 91 || c == 93) = true
+  · simp only [hbr, ↓reduceIte]
+    trivial
+  simp only [hbr, Bool.false_eq_true, ↓reduceIte]
+  unfold UcSStepOK UcSInv
+  simp only [hst]
+  refine ⟨A1, A2.snoc hc ?_⟩
+  simp only [Bool.or_eq_true, not_or, Bool.not_eq_true] at hbr
+  simp only [Bool.not_eq_true] at h64 h58 h59 h63
+  simp [ucTok, h64, h58, h59, h63, hbr.1, hbr.2]
+
+theorem ucs_pass {b : Buf} {t k i : Nat} {σ : UState} {c : UInt8} (h : UInv b t k i σ) (hs : UcSInv b k i σ)
+    (hst : σ.st = .pass0 ∨ σ.st = .pass1) (hc : b[i]? = some c) : UcSStepOK b k i (uriStep i c σ) := by
+  obtain ⟨hsch, hty, hp, hk, hi, hfit, hI⟩ := h
+  have hlt := get?_lt hc
+  unfold UStInv at hI
+  have hI' : σ.foundUser = false ∧ σ.passOffs = 0 ∧ σ.u.user.offs = k ∧ 0 < σ.u.user.len ∧
+      b[k + σ.u.user.len]? = some 58 ∧ σ.s = k + σ.u.user.len + 1 ∧ σ.s ≤ i ∧ σ.u.pass = ⟨0, 0⟩ ∧ Blank4 σ.u := by
+    rcases hst with hst | hst <;> (rw [hst] at hI; exact hI)
+  clear hI
+  obtain ⟨hfu, hpo, huo, hul, hcol, hs0, hsi, hp0, hh0, hpt0, hpa0, hhd0⟩ := hI'
+  unfold UcSInv at hs
+  have hs' : UcFirstTok b k (k + σ.u.user.len) ∧ UcAll b σ.s i ucTok := by
+    rcases hst with hst | hst
+    · rw [hst] at hs; exact ⟨hs.1, hs.2.mono uc_digit_tok⟩
+    · rw [hst] at hs; exact hs
+  obtain ⟨hft, A2⟩ := hs'
+  have hDig : σ.st = .pass0 → UcAll b σ.s i isDigit := by
+    intro hst0
+    rw [hst0] at hs
+    exact hs.2
+  have hset : PField.set σ.s i = ⟨σ.s, i - σ.s⟩ := uset_eq hsi (by omega)
+  have hue : σ.u.user = ⟨k, k + σ.u.user.len - k⟩ := by
+    have : k + σ.u.user.len - k = σ.u.user.len := by omega
+    rw [this, ← huo]
+  have hat : ∀ pn, c = 64 →
+      UcSStepOK b k i (.next { σ.setPass σ.s i with portNo := pn, st := .host0, foundUser := true, s := i + 1 }) := by
+    intro pn hc64
+    subst hc64
+    unfold UcSStepOK UcSInv
+    simp only [UState.setPass, hset]
+    exact ⟨i, rfl, hc, Or.inl ⟨k + σ.u.user.len, hft, hue, Or.inr ⟨hcol, by omega, by rw [hs0], by rw [← hs0]; exact A2⟩⟩⟩
+  unfold uriStep
+  rcases hst with hst | hst
+  · rw [hst]
+    simp only
+    by_cases h64 : (c == 64) = true
+    · simp only [h64, ↓reduceIte]
+      exact hat 0 (beq_u8 h64)
+    simp only [h64, Bool.false_eq_true, ↓reduceIte]
+    by_cases hsq : (c == 59 || c == 63) = true
+    · simp only [hsq, ↓reduceIte]
+      simp only [UState.setPort, hset]
+      by_cases hbig : σ.portNo > 65535
+      · simp only [hbig, ↓reduceIte]
+        trivial
+      simp only [hbig, ↓reduceIte]
+      have hD : UcAll b σ.s i isDigit := hDig hst
+      have hok : UcHostOK b k ⟨0, 0⟩ σ.u.pass σ.u.user (σ.u.user.offs + σ.u.user.len) := by
+        rw [huo]
+        exact Or.inl ⟨rfl, hp0, Or.inl hft, hue⟩
+      have e : σ.s + (i - σ.s) = i := by omega
+      by_cases h59 : (c == 59) = true
+      · simp only [h59, ↓reduceIte]
+        unfold UcSStepOK UcSInv
+        simp only
+        refine ⟨hok, ?_, UcAll.nil b _ (Nat.le_refl _), fun hf => by cases hf⟩
+        unfold UcFld
+        simp only [e]
+        exact hD
+      · simp only [h59, Bool.false_eq_true, ↓reduceIte]
+        unfold UcSStepOK UcSInv
+        simp only [hpa0]
+        refine ⟨hok, ?_, UcAll.nil b _ (by simp), fun _ => UcAll.nil b _ (Nat.le_refl _), fun hf => by cases hf⟩
+        unfold UcFld
+        simp only [e]
+        exact hD
+    simp only [hsq, Bool.false_eq_true, ↓reduceIte]
+    by_cases hdg : isDigit c = true
+    · simp only [hdg, ↓reduceIte]
+      unfold UcSStepOK UcSInv
+      simp only [hst]
+      exact ⟨hft, (hDig hst).snoc hc hdg⟩
+    simp only [hdg, Bool.false_eq_true, ↓reduceIte]
+    by_cases hbr : (c == 91 || c == 93 || c == 58) = true
+    · simp only [hbr, ↓reduceIte]
+      trivial
+    simp only [hbr, Bool.false_eq_true, ↓reduceIte]
+    unfold UcSStepOK UcSInv
+    simp only
+    refine ⟨hft, A2.snoc hc ?_⟩
+    simp only [Bool.or_eq_true, not_or, Bool.not_eq_true] at hbr hsq
+    simp only [Bool.not_eq_true] at h64
+    simp [ucTok, h64, hsq.1, hsq.2, hbr.1.1, hbr.1.2, hbr.2]
+  · rw [hst]
+    simp only
+    by_cases h64 : (c == 64) = true
+    · simp only [h64, ↓reduceIte]
+      exact hat σ.portNo (beq_u8 h64)
+    simp only [h64, Bool.false_eq_true, ↓reduceIte]
+    by_cases hbr : (c == 59 || c == 63 || c == 91 || c == 93 || c == 58) = true
+    · simp only [hbr, ↓reduceIte]
+      trivial
+    simp only [hbr, Bool.false_eq_true, ↓reduceIte]
+    unfold UcSStepOK UcSInv
+    simp only [hst]
+    refine ⟨hft, A2.snoc hc ?_⟩
+    simp only [Bool.or_eq_true, not_or, Bool.not_eq_true] at hbr
+    simp only [Bool.not_eq_true] at h64
+    simp [ucTok, h64, hbr.1.1.1.1, hbr.1.1.1.2, hbr.1.1.2, hbr.1.2, hbr.2]
+
+
 end Sipsp
